@@ -847,6 +847,7 @@ func (u *Unit) execSimple(st *State, in ssa.Instruction) {
 				u.heapSet(st, hn, Store(h, r, u.zero(st2.Field(i).Type())))
 			}
 			st.private = append(st.private, privRef{r, "obj:" + structName(et)})
+			st.created = append(st.created, createdObj{r, structName(et), x})
 			fr.regs[x] = r
 			return
 		}
